@@ -15,6 +15,7 @@ import (
 	"verif/internal/gen"
 	"verif/internal/mon"
 	"verif/internal/prng"
+	"verif/internal/refcodec"
 )
 
 // C16 — JSON interchange preserves transactions and satoshi amounts exactly.
@@ -194,6 +195,27 @@ func init() {
 					base.Outs[k].Script = sc
 				case 1:
 					base.Outs[k].Script = prng.Pick(r, [][]byte{{0x00}, {0x6a}, {0x51}, {0x00, 0x6a}, {0x00, 0x00}, {0x4c}, {0x01}, {0x6a, 0x4c}, {0x00, 0x6a, 0x01}})
+				case 2: // a P2PKH-inscription envelope whose pushes (content type, separator, payload) use every legal form, empty ones included
+					form := func(d []byte) []byte {
+						if len(d) == 0 {
+							return prng.Pick(r, [][]byte{{0x00}, {0x4c, 0x00}, {0x4d, 0x00, 0x00}, {0x4e, 0x00, 0x00, 0x00, 0x00}})
+						}
+						if r.Chance(1, 3) {
+							e, _ := refcodec.PushWith(prng.Pick(r, []byte{0x4c, 0x4d}), d)
+							return e
+						}
+						return gen.Push(d)
+					}
+					sc := gen.P2PKH(r.Bytes(20))
+					sc = append(sc, 0x00, 0x63, 0x03, 'o', 'r', 'd', 0x51)
+					sc = append(sc, form(r.Bytes(r.Intn(3)*5))...)
+					sc = append(sc, form(nil)...)
+					sc = append(sc, form(r.Bytes(r.Intn(3)*7))...)
+					sc = append(sc, 0x68)
+					base.Outs[k].Script = sc
+				}
+				if i%97 == 5 && k == 0 { // one script beyond the readers' chunk size
+					base.Outs[k].Script = r.Bytes(prng.Pick(r, []int{16384, 16385, 20000, 40000}))
 				}
 			}
 			for k := range base.Ins { // "signed": every unlocking script present and non-empty
